@@ -276,6 +276,9 @@ def r3(ctx):
                 if e.kind == 'CALL' and e.d['name'] == callee:
                     r = _retry_arg(e, e.d['targets'][0])
                     ok = r is not None and r.is_const and r.val is True
+                    # ... or forwards its own `retry` parameter whose default is True
+                    if not ok and r is not None and r.k == 'param' and r.a[0] == 'retry' and _default_retry(f) is True:
+                        ok = True
         obs.append(Ob('R3', '%s.%s/retry-true' % (cls, m), ok, '%s.%s must call %s(retry=True): indexing syntax has no '
                       'way to report a timeout' % (cls, m, callee), f.loc()))
     # every other public operation of Cache and FanoutCache reports a lock timeout by default (retry=False): a True
